@@ -21,6 +21,8 @@ import (
 	gcmd "github.com/google/gce-tcb-verifier/gcetcbendorsement/cmd"
 	epb "github.com/google/gce-tcb-verifier/proto/endorsement"
 	"github.com/google/gce-tcb-verifier/sev"
+	sops "github.com/google/gce-tcb-verifier/sign/ops"
+	styp "github.com/google/gce-tcb-verifier/sign/types"
 	"github.com/google/gce-tcb-verifier/verify"
 	spb "github.com/google/go-sev-guest/proto/sevsnp"
 	tpmpb "github.com/google/go-tpm-tools/proto/attest"
@@ -228,6 +230,15 @@ func (e *c01env) build() {
 	}
 }
 
+// sopsCA is the certificate authority sign/ops/verify.go reads from: one certificate, one bundle.
+type sopsCA struct {
+	styp.CertificateAuthority
+	cert, bundle []byte
+}
+
+func (c *sopsCA) Certificate(context.Context, string) ([]byte, error) { return c.cert, nil }
+func (c *sopsCA) CABundle(context.Context, string) ([]byte, error)    { return c.bundle, nil }
+
 func (e *c01env) roots(class string) *x509.CertPool {
 	if p := e.sharedPools[class]; p != nil {
 		return p // one pool object reused across calls (see the successive-use pass)
@@ -333,6 +344,13 @@ func (e *c01env) run(r Row) (accepted bool, errText string) {
 			err = gtb.SevValidate(ctx, attWith(nil), &gtb.SevValidateOptions{RootsOfTrust: roots, Now: now, Getter: &SeqGetter{Bodies: [][]byte{eb, e.genuineBytes}}})
 		case "TdxValidate_opts":
 			err = gtb.TdxValidate(ctx, e.m.QuoteBytes, &gtb.TdxValidateOptions{Endorsement: en, RootsOfTrust: roots, Now: now})
+		case "SopsVerifySignatureFromCA":
+			// the signer-side library: the authority holds the row's certificate for the key version and the
+			// row's roots as its bundle; message and signature are the endorsement's
+			g := &epb.VMGoldenMeasurement{}
+			_ = proto.Unmarshal(en.GetSerializedUefiGolden(), g)
+			ca := &sopsCA{cert: g.GetCert(), bundle: e.rootsFile(r.Roots)}
+			err = sops.VerifySignatureFromCA(ctx, ca, "kv", now, en.GetSerializedUefiGolden(), en.GetSignature())
 		case "cli_verify", "cli_sev_validate", "cli_tdx_validate", "cli_sev_plus_genuine_extra":
 			files := map[string][]byte{"endo.bin": eb, "att.bin": e.attBytes, "quote.bin": e.m.QuoteBytes}
 			if r.Entry == "cli_sev_plus_genuine_extra" {
@@ -423,12 +441,13 @@ func RunC01(run *vk.Run) {
 		stride = 4 // quick: a seeded quarter of the rows (every row in thorough)
 	}
 	parallel(len(em.Cases), func(i int) {
-		if !vk.Pick(i, run.Seed, stride) {
-			return
-		}
 		var c emitted
 		if err := json.Unmarshal(em.Cases[i], &c); err != nil {
 			run.Infra(err)
+			return
+		}
+		// the library-only entry of sign/ops is cheap: all of its rows run in both tiers
+		if c.Row.Entry != "SopsVerifySignatureFromCA" && !vk.Pick(i, run.Seed, stride) {
 			return
 		}
 		r := Row{c.Row.Payload, c.Row.Sig, c.Row.Cert, c.Row.Roots, c.Row.Time, c.Row.Prov, c.Row.Entry}
@@ -508,5 +527,5 @@ func RunC01(run *vk.Run) {
 	env.sharedPools = nil
 	run.AddDrift(drift)
 	run.Exhaustive = !run.IsQuick()
-	run.Rule = "every row of Verify.tla (payload x signature x certificate (incl. certificates with an unknown critical extension) x caller roots x caller time x provenance x entry point = " + fmt.Sprint(len(em.Cases)) + ") is realised with real RSA keys, certificates, signatures and attestations and executed on the named entry point (library functions, validator closures, SevValidate, TdxValidate and the three CLI commands in-process); quick runs a seeded quarter; non-trivial = rows whose signature or certificate is not genuine"
+	run.Rule = "every row of Verify.tla (payload x signature x certificate (incl. certificates with an unknown critical extension) x caller roots x caller time x provenance x entry point = " + fmt.Sprint(len(em.Cases)) + ") is realised with real RSA keys, certificates, signatures and attestations and executed on the named entry point (library functions, validator closures, SevValidate, TdxValidate, the three CLI commands in-process, and the signer-side sign/ops.VerifySignatureFromCA, all of whose rows run in both tiers); quick runs a seeded quarter; non-trivial = rows whose signature or certificate is not genuine"
 }
